@@ -145,7 +145,7 @@ class Env:
     def now(self) -> float:
         return self.loop.time()
 
-    def log(self, kind: str, **payload: Any) -> None:
+    def log(self, kind: str, /, **payload: Any) -> None:
         if not self.closed:
             self.obs.append((self.loop.time(), kind, payload))
 
@@ -192,8 +192,8 @@ class Env:
         for s in w.open_streams():
             nxt = w.stream_next(s)
             if nxt is not None and sc.deliverable(self, s, nxt):
-                order = (0, 0) if nxt is EOF or nxt['type'] in ('ERROR', 'BOOKMARK') else \
-                    (1, int(nxt['object']['metadata']['resourceVersion']))
+                rvs = None if nxt is EOF else (nxt.get('object', {}).get('metadata') or {}).get('resourceVersion')
+                order = (0, 0) if nxt is EOF or nxt['type'] in ('ERROR', 'BOOKMARK') or rvs is None else (1, int(rvs))
                 deliverable.append((order, s.sid, s))
         deliverable.sort(key=lambda x: (x[0], x[1]))
         for _, _, s in deliverable:
